@@ -246,6 +246,14 @@ func runC05(h *History, stt *stats) result {
 	}
 	w := h.baseWorld()
 	deb := time.Duration(h.Debounce) * time.Millisecond
+	// several ops applied back to back are only deterministic when their events merge into ONE push (otherwise a
+	// push built for the first event may already contain the state of the second one: C03's known class
+	// "events behind state", which is not about reconnects) - as in stream c03 such bursts get debounce 50 ms
+	if len(c.Trigger) > 1 || (c.Hot && !c.Second && len(c.Away) > 1) {
+		if deb < 50*time.Millisecond {
+			deb = 50 * time.Millisecond
+		}
+	}
 	st := newSite(w, deb)
 	stt.Servers++
 	defer st.close()
@@ -591,11 +599,14 @@ func runC05(h *History, stt *stats) result {
 	// the reconnected streams keep following changes
 	if len(c.After) > 0 {
 		stt.Reconnects["changes-after-reconnect"]++
-		if r := applyStep(target, w, c.After, stt); r != nil {
-			return *r
-		}
-		if !target.quiesceLoose(sotw, delta) {
-			return timeoutResult("changes after the reconnect", info())
+		// one at a time, each pushed to quiescence (no un-scripted burst, see above)
+		for _, o := range c.After {
+			if r := applyStep(target, w, []Op{o}, stt); r != nil {
+				return *r
+			}
+			if !target.quiesceLoose(sotw, delta) {
+				return timeoutResult("changes after the reconnect", info())
+			}
 		}
 	}
 
